@@ -44,7 +44,8 @@ pub fn cases(prop: &str, seed: u64, tier: &str) -> Vec<String> {
             big_cases(&mut out, &mut r, QuerySel { class: false, method: false, lines: true, params: false, all_lines: false, both_files: false }, if tier == "quick" { 2 } else { 12 }, false);
             let b = budget(tier, 120, 4000);
             for i in 0..b.mappings {
-                let m = gen_mapping(&mut r, &REP);
+                let opts = GenOpts { dom: Dom::Representable, max_classes: if i % 12 == 5 { 60 } else { 5 }, noise: true };
+                let m = gen_mapping(&mut r, &opts);
                 if !representable(m.as_bytes()) {
                     continue;
                 }
@@ -361,6 +362,13 @@ pub fn cases(prop: &str, seed: u64, tier: &str) -> Vec<String> {
         }
         "C12" => {
             let b = budget(tier, 400, 20000);
+            for _ in 0..(if tier == "quick" { 3 } else { 30 }) {
+                // VALID large caches: every query must answer without panic and correctly (search code on
+                // big runs); asked through the mapping so that the answers are compared with the specification
+                let m = gen_big_mapping(&mut r);
+                out.push(format!("M {}", hex(m.as_bytes())));
+                emit_big_queries(&mut out, m.as_bytes(), &mut r, QuerySel { class: true, method: true, lines: true, params: true, all_lines: false, both_files: false });
+            }
             for i in 0..b.mappings {
                 let m = gen_mapping(&mut r, &REP);
                 let Some(full) = write_cache(m.as_bytes()) else { continue };
@@ -404,6 +412,26 @@ pub fn cases(prop: &str, seed: u64, tier: &str) -> Vec<String> {
         }
         "C07" => {
             let b = budget(tier, 250, 8000);
+            for _ in 0..(if tier == "quick" { 2 } else { 10 }) {
+                // large method groups: frames of the heavy classes through the text API
+                let m = gen_big_mapping(&mut r);
+                out.push(format!("M {}", hex(m.as_bytes())));
+                let mut qs = Vec::new();
+                emit_big_queries(&mut qs, m.as_bytes(), &mut r, QuerySel { class: false, method: false, lines: true, params: false, all_lines: false, both_files: false });
+                let mut text = String::from("java.lang.RuntimeException: boom\n");
+                let mut nlines = 0;
+                for q in qs.iter().step_by(5) {
+                    let t: Vec<&str> = q.split(' ').collect();
+                    let (c, mth) = (String::from_utf8_lossy(&unhex(t[1])).to_string(), String::from_utf8_lossy(&unhex(t[2])).to_string());
+                    text.push_str(&format!("    at {}.{}(SourceFile:{})\n", c, mth, t[3]));
+                    nlines += 1;
+                    if nlines % 40 == 0 {
+                        out.push(format!("S {}", hex(text.as_bytes())));
+                        text = String::from("Caused by: x.Y: z\n");
+                    }
+                }
+                out.push(format!("S {}", hex(text.as_bytes())));
+            }
             for i in 0..b.mappings {
                 let m = gen_mapping(&mut r, &REP);
                 if !representable(m.as_bytes()) {
